@@ -105,6 +105,10 @@ class FitProperties(dict):
                         return
                 # Trigger `self.reset`
                 self.reset()
+            # Store settings by value: a later in-place modification of a
+            # mutable object (parameters, lists, dictionaries) by the
+            # caller must not silently change the stored settings.
+            value = copy.deepcopy(value)
         elif key not in FP_RESULTS:
             msg = "Key '{}' not in FP_DEFAULT".format(key)
             raise FitKeyError(msg)
